@@ -93,7 +93,8 @@ def diff_fields(layout, got, exp):
 STAGES = ["generic", "modes", "wrapkit", "env"]
 # which analysis stages contribute to which property (a cold check only computes what it needs)
 STAGES_FOR = {"C02": ["modes"], "C13": ["wrapkit"], "C14": ["wrapkit"], "C15": ["wrapkit"],
-              "C01": ["generic", "env"], "C03": ["generic", "env"], "C10": ["generic", "env"], "C11": ["generic", "env"]}
+              "C01": ["generic", "env"], "C03": ["generic", "env"], "C10": ["generic", "env"], "C11": ["generic", "env"],
+              "C08": ["generic", "env"]}
 # rough cost order (most expensive first) so that the long poles start first
 COST = ["bin_pack", "mmst", "robot_warehouse", "rubiks_cube", "pac_man", "lbf", "connector", "multi_cvrp", "job_shop", "flat_pack",
         "tetris", "cleaner", "sudoku", "sokoban", "maze", "cvrp", "tsp"]
@@ -105,7 +106,11 @@ def run_stage(name, stage, tier, seed):
     model correspondence and verified checkers)."""
     kit = Kit(name, tier, seed)
     if stage == "generic":
-        from harness import generic
+        from harness import generic, wiring
+        try:
+            wiring.analyze(kit)
+        except Exception:
+            kit.res["C08"].count("wiring:probe-raised")
         try:
             generic.analyze(kit)
         except Exception:
